@@ -504,3 +504,64 @@ META = {
         "the mapping leaked when mprotect fails after a successful mmap in alloc_stack (error path, not part of the property)",
     ],
 }
+
+
+# ---- identity across migration (added after seeded change C12-1 was missed) ---------------------------------------
+import re as _re2
+from vx.lift import read_source as _rs2, LiftError as _LE2
+CSELF_HPP = "libs/pika/coroutines/include/pika/coroutines/detail/coroutine_self.hpp"
+CSELF_CPP = "libs/pika/coroutines/src/detail/coroutine_self.cpp"
+CSTACKFUL = "libs/pika/coroutines/include/pika/coroutines/detail/coroutine_stackful_self.hpp"
+def _rsoe_members():
+    # data members of the nested coroutine_self::reset_self_on_exit, read from /repo (types mapped to C spelling)
+    try:
+        src = _rs2(CSELF_HPP)
+        m = _re2.search(r"struct reset_self_on_exit\s*\{(.*?)\n        \};", src, _re2.S)
+        body = m.group(1)
+        mem = _re2.findall(r"^\s*(coroutine_self\s*\*\s*&?)\s*(\w+)\s*;", body, _re2.M)
+        out = []
+        for t, n in mem:
+            out.append(("struct coroutine_self **%s;" if "&" in t else "struct coroutine_self *%s;") % n)
+        return " ".join(out)
+    except Exception:
+        return "struct coroutine_self *self_;"
+_RS_MEM = _rsoe_members()
+_REFS = [n for n in _re2.findall(r"\*\*(\w+);", _RS_MEM)]      # reference members are pointers to a slot in C
+ID_SPELL = [
+    Sub(r"\bcoroutine_self\s*\*\s*&", "struct coroutine_self **", None),
+    Sub(r"(?<!struct )\bcoroutine_self\s*\*", "struct coroutine_self *", None),
+    Sub(r"\bstatic thread_local struct coroutine_self \*\s*(\w+) = nullptr;\s*return \1;", "return &vx_tls[g_worker];", None),
+    Sub(r"\blocal_self\(\) = ", "*local_self() = ", None),
+    Sub(r"\breturn local_self\(\);", "return *local_self();", None),
+    Sub(r"\bcoroutine_self::", "", None),
+]
+def _rsoe_rules():
+    r = list(ID_SPELL)
+    for n in _REFS:
+        # a reference member: initialised with the slot's address, used through it
+        r.append(Sub(r"\b%s\((\w+\(\))\)" % n, r"%s = \1" % n, None))
+        r.append(Sub(r"(?<![\w>.])%s = (?!local_self)" % n, "*self_guard->%s = " % n, None))
+        r.append(Sub(r"(?<![\w>.*])%s\b(?! = )" % n, "self_guard->%s" % n, None))
+    return r
+UNITS.append(Unit("ctx.yield_identity", "identity.c", defines=["RSOE_MEMBERS=" + _RS_MEM], enforce="yield_impl",
+                  lifts={
+                      "local_self": Lift(CSELF_CPP, r"coroutine_self\*& coroutine_self::local_self\(\)", rules=ID_SPELL),
+                      "set_self": Lift(CSELF_HPP, r"static void set_self\(coroutine_self\* self\)", rules=ID_SPELL),
+                      "get_self": Lift(CSELF_HPP, r"static coroutine_self\* get_self\(\)", rules=ID_SPELL),
+                      "rsoe_ctor": Lift(CSELF_HPP, r"reset_self_on_exit\(coroutine_self\* self\)", fragment_end=r"\}\s*\n", rules=[
+                          Sub(r"^reset_self_on_exit\(coroutine_self\* self\)\s*:\s*", "{ ", 1),
+                          Sub(r"\bself_\(self\)", "self_guard->self_ = self;", None),
+                          Sub(r",\s*(\w+)\((local_self\(\))\)", r" self_guard->\1 = \2;", None),
+                          Sub(r";\s*\{", "; {", None), Sub(r"\}\s*$", "} }", 1)] + _rsoe_rules()),
+                      "rsoe_dtor": Lift(CSELF_HPP, r"~reset_self_on_exit\(\)", which=0, expect=2, rules=_rsoe_rules() + [
+                          Sub(r"(?<![\w>.])self_\b", "self_guard->self_", None)]),
+                      "yield_impl": Lift(CSTACKFUL, r"arg_type yield_impl\(result_type arg\) override", rules=[
+                          Sub(r"\bthis->pimpl_->(\w+)\(", r"pimpl_\1(&self->pimpl_, ", None),
+                          Sub(r"\*pimpl_->args\(\)", "*pimpl_args(&self->pimpl_)", None),
+                          Sub(r", \)", ")", None),
+                          Sub(r"PIKA_ASSERT\(pimpl_\)", "PIKA_ASSERT(self->pimpl_)", None),
+                          Guard(r"reset_self_on_exit (\w+)\(this\);", r"struct rsoe \1; rsoe_ctor(&\1, self);", r"rsoe_dtor(&\1);", 1)]),
+                  },
+                  funcs=[CSTACKFUL + ": coroutine_stackful_self::yield_impl", CSELF_HPP + ": coroutine_self::reset_self_on_exit (ctor, dtor), set_self, get_self",
+                         CSELF_CPP + ": coroutine_self::local_self"], min_obligations=10,
+                  doc="identity (worker-local current-task pointer) is restored on the worker the task resumes on, also after migration"))
